@@ -1,8 +1,9 @@
 /- Source tie for C06: the binary variation kernels `flip_mutation`, `binomialGA`,
    `one_point_crossover`, `two_point_crossover`, `uniform_crossover` as translated from /repo on this
    run equal the models of TFV.Model.BinOps, with the random draws as explicit streams
-   (`us` = results of random.random() as order keys, `ns` = integer draws, `sampled` = the result of
-   the `random_sample` call), and make no out-of-range access. -/
+   (`us` = results of random.random() as order keys, `ns` = integer draws, `sampler n q replace k` = the result of
+   the k-th `random_sample(n, q, replace)` call, so the theorems also say which arguments the source passes:
+   one cut point below the string length; two DISTINCT cut points (replace=False); one parent index per locus), and make no out-of-range access. -/
 import TFV.Generated.Src.flip_mutation
 import TFV.Generated.Src.binomialGA
 import TFV.Generated.Src.one_point_crossover
@@ -11,6 +12,7 @@ import TFV.Generated.Src.uniform_crossover
 import TFV.Model.BinOps
 import TFV.Lemmas.Src.BinKernels
 import TFV.Properties.BinOps
+import TFV.Properties.Src.Sampling
 
 namespace TFV.SrcTie
 open TFV.Generated.Src
@@ -25,36 +27,66 @@ theorem C06_src_binomialGA (x m : List Int) (cr : Int) (us : List Int) (j : Nat)
   src_binomialGA x m cr us j rest hm hus
 
 theorem C06_src_one_point_crossover (a b : List Int) (more : List (List Int)) (fit rank : List Int)
-    (cut : Nat) (srest : List Int) (key u : Int) (urest : List Int) (hab : b.length = a.length) :
-    one_point_crossover (a :: b :: more) fit rank ((cut : Int) :: srest) key (u :: urest) =
+    (cut : Nat) (srest : List Int) (key u : Int) (urest : List Int) (hab : b.length = a.length)
+    (sampler : Int → Int → Bool → Nat → List Int)
+    (hsm : sampler (a.length : Int) 1 true 0 = (cut : Int) :: srest) :
+    one_point_crossover (a :: b :: more) fit rank key (u :: urest) sampler =
       some (BinOps.onePoint (a :: b :: more) cut (decide (u < key))) :=
-  src_one_point_crossover a b more fit rank cut srest key u urest hab
+  src_one_point_crossover a b more fit rank cut srest key u urest hab sampler hsm
 
 theorem C06_src_two_point_crossover (a b : List Int) (more : List (List Int)) (fit rank : List Int)
-    (c0 c1 : Nat) (key u : Int) (urest : List Int) (hab : b.length = a.length) :
-    two_point_crossover (a :: b :: more) fit rank [(c0 : Int), (c1 : Int)] key (u :: urest) =
+    (c0 c1 : Nat) (key u : Int) (urest : List Int) (hab : b.length = a.length)
+    (sampler : Int → Int → Bool → Nat → List Int)
+    (hsm : sampler (a.length : Int) 2 false 0 = [(c0 : Int), (c1 : Int)]) :
+    two_point_crossover (a :: b :: more) fit rank key (u :: urest) sampler =
       some (BinOps.twoPoint (a :: b :: more) c0 c1 (decide (u < key))) :=
-  src_two_point_crossover a b more fit rank c0 c1 key u urest hab
+  src_two_point_crossover a b more fit rank c0 c1 key u urest hab sampler hsm
 
 theorem C06_src_uniform_crossover (ps : List (List Int)) (fit rank : List Int) (ch : List Nat)
     (hne : ps ≠ []) (hrows : ∀ r ∈ ps, r.length = (ps.headD []).length)
-    (hlen : ch.length = (ps.headD []).length) (hch : ∀ c ∈ ch, c < ps.length) :
-    uniform_crossover ps fit rank (ch.map Int.ofNat) = some (BinOps.uniformX ps ch) :=
-  src_uniform_crossover ps fit rank ch hne hrows hlen hch
+    (hlen : ch.length = (ps.headD []).length) (hch : ∀ c ∈ ch, c < ps.length)
+    (sampler : Int → Int → Bool → Nat → List Int)
+    (hsm : sampler (fit.length : Int) ((ps.headD []).length : Int) true 0 = ch.map Int.ofNat) :
+    uniform_crossover ps fit rank sampler = some (BinOps.uniformX ps ch) :=
+  src_uniform_crossover ps fit rank ch hne hrows hlen hch sampler hsm
 
 /-! ### the C06 statements re-stated on the translated kernels -/
 
 /-- the translated `one_point_crossover` returns a prefix of one parent followed by the suffix of the
     other (both orientations), reading both parents only in range -/
 theorem C06_src_one_point_prefix_suffix (a b : List Int) (fit rank : List Int) (cut : Nat) (srest : List Int)
-    (key u : Int) (urest : List Int) (hab : b.length = a.length) :
-    one_point_crossover [a, b] fit rank ((cut : Int) :: srest) key (u :: urest) =
+    (key u : Int) (urest : List Int) (hab : b.length = a.length)
+    (sampler : Int → Int → Bool → Nat → List Int)
+    (hsm : sampler (a.length : Int) 1 true 0 = (cut : Int) :: srest) :
+    one_point_crossover [a, b] fit rank key (u :: urest) sampler =
       some (if u < key then a.take (cut + 1) ++ b.drop (cut + 1) else b.take (cut + 1) ++ a.drop (cut + 1)) := by
-  rw [C06_src_one_point_crossover a b [] fit rank cut srest key u urest hab]
+  rw [C06_src_one_point_crossover a b [] fit rank cut srest key u urest hab sampler hsm]
   have h := BinOps.C06_onePoint a b cut hab.symm
   by_cases hu : u < key
   · simp [hu, h.1]
   · simp [hu, h.2]
+
+/-- with `random_sample` as translated from the source: the two cut points of `two_point_crossover` are
+    DISTINCT positions of the string -/
+theorem C06_src_two_point_distinct (a b : List Int) (more : List (List Int)) (fit rank : List Int)
+    (c0 c1 : Nat) (key u : Int) (urest : List Int) (hab : b.length = a.length)
+    (sampler : Int → Int → Bool → Nat → List Int) (ns : List Nat)
+    (hd : ∀ x ∈ ns, x < a.length) (hr : Select.sampleNoRepl ns 2 [] = some [c0, c1])
+    (hs : random_sample (a.length : Int) ((2 : Nat) : Int) false (ns.map Int.ofNat) =
+      some (sampler (a.length : Int) 2 false 0)) :
+    two_point_crossover (a :: b :: more) fit rank key (u :: urest) sampler =
+      some (BinOps.twoPoint (a :: b :: more) c0 c1 (decide (u < key))) ∧
+    c0 ≠ c1 ∧ c0 < a.length ∧ c1 < a.length := by
+  obtain ⟨he, -, hnd, hlt⟩ := C11_src_random_sample_distinct a.length 2 a.length ns [c0, c1] hd hr
+  have hsm : sampler (a.length : Int) 2 false 0 = [(c0 : Int), (c1 : Int)] := by
+    rw [he] at hs
+    have := (Option.some.inj hs).symm
+    simpa using this
+  refine ⟨C06_src_two_point_crossover a b more fit rank c0 c1 key u urest hab sampler hsm, ?_,
+    hlt c0 (by simp), hlt c1 (by simp)⟩
+  intro h
+  rw [h] at hnd
+  simp at hnd
 
 /-- the translated `flip_mutation` keeps a binary string binary and of the same length -/
 theorem C06_src_flip_binary (x : List Int) (p : Int) (us : List Int) (hus : x.length ≤ us.length) (hb : BinOps.Binary x) :
